@@ -1064,7 +1064,8 @@ class Node:
         peer = self._find_connection_peer(conn)
         if peer:
             peer.statistics.add_processed_req_time(message.name, process_time)
-            if hasattr(message, "result_code"):
+            # an answer may have been built without a Result-Code
+            if getattr(message, "result_code", None) is not None:
                 peer.statistics.add_sent_result_code(message.result_code)
 
     def _update_peer_counters(self, conn: PeerConnection,
